@@ -2,7 +2,7 @@
 # emitted as stubs (signature taken from /repo, contract assumed here and proved in the unit that owns the function).
 
 PRELUDE_ALL = ["00_header.rs", "10_algebra.rs", "15_field.rs", "20_ops.rs", "30_traits.rs", "40_zeroize.rs", "50_merlin.rs",
-               "60_shims.rs", "70_stdgaps.rs", "75_hash.rs", "80_msm.rs", "85_chunks.rs"]
+               "60_shims.rs", "70_stdgaps.rs", "75_hash.rs", "80_msm.rs", "85_chunks.rs", "95_gens.rs"]
 
 
 def items(src, names):
@@ -54,7 +54,7 @@ def types(ext="stub", agi="stub"):
     k = {"fns": ["try_from"]} if ext == "body" else {"stubs": ["try_from"]}
     ka = {"fns": ["next"]} if agi == "body" else {"stubs": ["next"]}
     agi_piece = fns("src/generators/aggregated_gens_iter.rs", AGI_HEADER, "AggregatedGensIter", impl_filter="impl Iterator for AggregatedGensIter", **ka)
-    return TYPES + [with_fns(EXT_TRYFROM[0], **k), with_fns(EXT_TRYFROM[1], **k), text("spec/types_spec.rs"), text("spec/spec_bytes.rs"), text("spec/spec_gens.rs"), agi_piece]
+    return TYPES + [with_fns(EXT_TRYFROM[0], **k), with_fns(EXT_TRYFROM[1], **k), text("spec/types_spec.rs"), text("spec/spec_bytes.rs"), text("spec/spec_gens.rs"), text("spec/spec_gens_new.rs"), agi_piece]
 
 
 def with_fns(piece, fns=None, stubs=None):
@@ -71,7 +71,7 @@ DEFAULT_RENAMES_PLUS_TRYINTO = ("enumerate,chain,cloned,fold,any,sum,unzip,inter
 # ---------------------------------------------------------------- U1 + U2 + U3: utilities and constructors
 UNITS["ctors"] = {
     "prelude": PRELUDE_ALL,
-    "contracts": ["ctors.vc", "gens_stub.vc", "gens.vc"],
+    "contracts": ["ctors.vc", "gens_new.vc", "gens.vc"],
     "pieces": types("body") + [
         fns("src/commitment_opening.rs", "impl CommitmentOpening {", "CommitmentOpening", fns=["new", "r_len"]),
         fns("src/extended_mask.rs", "impl ExtendedMask {", "ExtendedMask", fns=["assign", "blindings"]),
@@ -84,6 +84,7 @@ UNITS["ctors"] = {
             impl_filter="impl PedersenGens<P>"),
         fns("src/range_statement.rs", "impl RangeStatement<P> {", "RangeStatement", fns=["init"]),
         fns("src/utils/generic.rs", None, None, fns=["compute_generator_padding"]),
+        text("spec/spec_wf.rs"),
         text("spec/canaries_ctors.rs"),
     ],
     "safety": {"*": ["C17"], "compute_generator_padding": ["C16"]},
@@ -226,4 +227,20 @@ UNITS["verify_rel"] = {
                                "b_decompressed", "li_decompressed", "ri_decompressed"], hoist=["verify:vartime_mixed_multiscalar_mul"]),
     "safety": {"*": ["C16"]},
     "rlimit": 300,
+}
+
+GENS_NEW_SUBST = [
+    ("LittleEndian :: write_u32 (& mut label [1 .. 5 ] , party_index )", "v_write_u32_at(&mut label, 1, party_index)"),
+    ("GeneratorsChain :: < P > :: new (& label ) . take (gens_capacity )", "v_chain_take(&label, gens_capacity)"),
+    ("g_vec . iter () . v_flat_map (move | g_j | g_j . iter () )", "g_vec.v_flat_vecs()"),
+    ("h_vec . iter () . v_flat_map (move | h_j | h_j . iter () )", "h_vec.v_flat_vecs()"),
+]
+UNITS["gens_new"] = {
+    "prelude": PRELUDE_ALL,
+    "contracts": ["gens.vc", "ctors.vc", "gens_new.vc"],
+    "pieces": types() + [
+        text("spec/spec_wf.rs"),
+        fns("src/generators/bulletproof_gens.rs", "impl BulletproofGens<P> {", "BulletproofGens", fns=["new"], mapcollect=True, subst=GENS_NEW_SUBST),
+    ],
+    "safety": {"*": ["C11"]},
 }
